@@ -17,7 +17,7 @@ static const double THRESH[] = {0.0, 0.05, 0.15, 0.5, 1.0, 2.0};
 
 /* shared input generator for elimination-like ops: returns matrix, fills description */
 int GEN_AIM_BOOST = 0; /* set by the cross-configuration monitor: favour shapes that are recursive in one build and base case in another */
-static int PREFER_BLOCK; /* set by aim_recursive_shape: the next input should favour block rank profiles */
+static __thread int PREFER_BLOCK; /* set by aim_recursive_shape: the next input should favour block rank profiles */
 /* shapes that straddle the base-case / block-recursion boundary of PLE (width*nrows around the PLE cutoff, ncols > 64) */
 static int aim_recursive_shape(rng_t *r, int md, int *pm, int *pn) {
   long cut = GC.ple_cutoff;
